@@ -4,6 +4,11 @@ Monitors: contracts on every function of numqi.gellmann, each compared with the 
 (built from the definition in the documented order X.., Y.., Z.., I): the basis itself (Hermitian, Tr(GiGj)=2 delta,
 tensor_n = Kronecker products), analysis == Tr(G_i A)/2, synthesis == sum v_i G_i, both round trips, Bloch vector real and
 round-tripping, |v| == dm_to_gellmann_norm, distance^2 == |v-w|^2, cache integrity of the lru-cached basis.
+Every contract judges a call from a snapshot of its array arguments taken at call time, checks that the arguments were not
+modified and that non-C-ordered arguments (Fortran order, transposed / strided views, slices) give the result of a C-ordered copy.
+A `history` shard replays, in ONE process: edit-the-result-in-place-then-call-again for every function (incl. the lru-cached
+basis: the next call must still return the basis), work buffers refilled in place, and the same configurations in several call
+orders with the first repeated at the end.
 Workloads: d=2..8, complex/Hermitian/real/density/pure/diagonal matrices, batch (),(1,),(k,),(k,l), numpy and torch in
 float32 and float64 precision, structured corner inputs (basis elements, unit matrices, non-contiguous views, large and
 small magnitudes, requires_grad tensors), and numqi's own callers (manifold SO/SU/Hermitian charts, Choi->Bloch map,
@@ -21,7 +26,9 @@ RULE = ('one case = one monitored call of a numqi.gellmann function, identified 
         'content digest of the arguments); inputs are drawn for every d=2..8 x kind (complex, Hermitian, real, density, pure, '
         'diagonal, anti-Hermitian) x batch shape ((),(1,),(k,),(k,l)) x backend (numpy, torch) x precision (float32, float64) '
         'plus hand-listed corner inputs and the arguments numqi\'s own callers produce; a case is non-trivial when the '
-        'matrix argument has a non-zero traceless part / the vector argument is non-zero (basis queries: always)')
+        'matrix argument has a non-zero traceless part / the vector argument is non-zero (basis queries: always); inputs also vary in memory '
+        'layout (C, Fortran, transposed / strided views, slices of larger arrays) and, on the numpy path, integer dtypes; history cases are '
+        '(function, kind of history) replayed in one process')
 EXHAUSTIVE = {'quick': True, 'thorough': True}
 EXHAUSTIVE_DOMAINS = {
     'quick': ['all (i,j,d) of gellmann_matrix for d=2..8 (203 elements)',
@@ -32,6 +39,8 @@ EXHAUSTIVE_DOMAINS = {
                  'every basis element G_i and every unit matrix |a><b| of d=2..8 analysed and re-synthesised (2 x 203)'],
 }
 ASSUMPTIONS = [
+    'arrays a function returns belong to the caller: editing them in place must not change what later calls return (a read-only result that '
+    'refuses the edit satisfies this)',
     'documented order of the basis: symmetric (a<b row-major), antisymmetric (same pair order), diagonal l=1..d-1, identity '
     'sqrt(2/d)*1 last; gellmann_matrix(i,j,d): i<j X-like, i>j Y-like, i=j=0 identity, i=j>0 Z-like',
     'tolerance 100*eps(input precision)*d relative to the largest entry of the item (eps = 1.2e-7 for float32/complex64 '
@@ -47,7 +56,8 @@ LEVEL_NOTE = ('Basis indices (i,j,d), (d,tensor_n,with_I) enumerated completely 
 DECIDING = ['numqi.gellmann.gellmann_matrix', 'numqi.gellmann.all_gellmann_matrix', 'numqi.gellmann.matrix_to_gellmann_basis',
             'numqi.gellmann.gellmann_basis_to_matrix', 'numqi.gellmann.dm_to_gellmann_basis', 'numqi.gellmann.gellmann_basis_to_dm',
             'numqi.gellmann.dm_to_gellmann_norm', 'numqi.gellmann.get_density_matrix_distance2', 'cache-integrity',
-            'relation/batched==per-item', 'relation/torch==numpy']
+            'relation/batched==per-item', 'relation/torch==numpy', 'relation/layout-independent', 'history/edit-result-then-call-again',
+            'history/work-buffer', 'history/call-order']
 
 C_TOL = 100.0
 EPS64 = 2.3e-16
@@ -55,7 +65,7 @@ EPS32 = 1.2e-7
 
 
 def shards(tier, seed):
-    ret = [{'name': 'basis'}, {'name': 'corner'}, {'name': 'realistic'}]
+    ret = [{'name': 'basis'}, {'name': 'corner'}, {'name': 'realistic'}, {'name': 'history'}]
     nrep = 1 if tier == 'quick' else 6
     for backend in ('numpy', 'torch'):
         for prec in ('f64', 'f32'):
@@ -79,6 +89,26 @@ def npy(x):
 
 def backend_of(x):
     return 'torch' if is_torch(x) else 'numpy'
+
+
+def layout_of(x):
+    """memory layout of an array argument: 'C', 'F' (column-major, not C) or 'strided'"""
+    if is_torch(x):
+        return 'C' if x.is_contiguous() else 'strided'
+    x = np.asarray(x)
+    if x.flags.c_contiguous:
+        return 'C'
+    return 'F' if x.flags.f_contiguous else 'strided'
+
+
+def snap(x):
+    """values of an array argument at call time (own memory, C order)"""
+    return np.array(npy(x), order='C', copy=True)
+
+
+def same_bytes(x, snapshot):
+    cur = npy(x)
+    return cur.shape == snapshot.shape and cur.dtype == snapshot.dtype and np.ascontiguousarray(cur).tobytes() == snapshot.tobytes()
 
 
 def in_eps(*xs):
@@ -257,12 +287,44 @@ def install(ctx, numqi):
 
     ctx.attach(G, 'all_gellmann_matrix', post=post_all, point='numqi.gellmann.all_gellmann_matrix')
 
+    # ------------------------------------------------------------------ snapshots of the array arguments at call time
+    def pre_snap(*names):
+        def pre(c):
+            out = []
+            for i, nm in enumerate(names):
+                x = c.arg(i, nm)
+                out.append({'a': snap(x), 'layout': layout_of(x)} if (isinstance(x, np.ndarray) or is_torch(x)) else None)
+            return out
+        return pre
+
+    def at_call(c, i, live):
+        """values of argument i at call time (falls back to the current values)"""
+        if c.snap and i < len(c.snap) and c.snap[i] is not None:
+            return c.snap[i]['a']
+        return npy(live)
+
+    def arg_relations(c, fn, be, lives, recall, tol_abs, wit):
+        """(3) the function must not modify its array arguments; (4) the same values in a C-ordered copy give the same result"""
+        snaps = c.snap or []
+        for live, sp in zip(lives, snaps):
+            if sp is not None:
+                ctx.check(same_bytes(live, sp['a']), f'{fn}/{be}/mutates-argument', f'{fn} modified an array argument in place', wit)
+        if any(sp is not None and sp['layout'] != 'C' for sp in snaps):
+            import torch
+            fresh = [(torch.from_numpy(sp['a'].copy()) if is_torch(live) else sp['a'].copy()) if sp is not None else live for live, sp in zip(lives, snaps)]
+            good, rc = M.invoke(f'{fn}/{be}/layout', recall, *fresh)
+            if good:
+                lay = ctx.extra.setdefault('non_C_layout_calls', {})
+                lay[f'{fn}/{be}'] = lay.get(f'{fn}/{be}', 0) + 1
+                rel_close(ctx, c.result, rc, 1.0, tol_abs, f'{fn}/{be}/layout-dependent', f'{fn}: the result depends on the memory layout (Fortran order / transposed view / '
+                          'strided slice) of an argument, not only on its values', wit() if callable(wit) else wit, 'relation/layout-independent')
+
     # ------------------------------------------------------------------ analysis / synthesis
     def post_m2v(c):
         if c.exc is not None:
             return
         A = c.arg(0, 'A')
-        a = npy(A)
+        a = at_call(c, 0, A)
         if a.ndim < 2 or a.shape[-1] != a.shape[-2] or a.shape[-1] < 1:
             return
         d = a.shape[-1]
@@ -276,19 +338,20 @@ def install(ctx, numqi):
         wit = lambda: {'d': d, 'backend': be, 'dtype': str(A.dtype), 'batch': list(a.shape[:-2]), 'A': a}
         ok = M.compare(c.result, ref, sc, eps, d, f'matrix_to_gellmann_basis/{be}', 'coefficients differ from Tr(G_i A)/2',
                        lambda idx: vec_block(idx[-1], d), wit)
+        arg_relations(c, 'matrix_to_gellmann_basis', be, [A], G.matrix_to_gellmann_basis, C_TOL * eps * d * float(np.max(sc, initial=0.0)), wit)
         if ok:
             good, back = M.invoke(f'roundtrip/matrix-vector-matrix/{be}', G.gellmann_basis_to_matrix, c.result)
             if good:
                 M.compare(back, a.astype(np.complex128), sc, eps, 2 * d, f'roundtrip/matrix-vector-matrix/{be}',
                           'gellmann_basis_to_matrix(matrix_to_gellmann_basis(A)) != A', lambda idx: mat_block(idx[-2], idx[-1]), wit)
 
-    ctx.attach(G, 'matrix_to_gellmann_basis', post=post_m2v, point='numqi.gellmann.matrix_to_gellmann_basis')
+    ctx.attach(G, 'matrix_to_gellmann_basis', post=post_m2v, pre=pre_snap('A'), point='numqi.gellmann.matrix_to_gellmann_basis')
 
     def post_v2m(c):
         if c.exc is not None:
             return
         vec = c.arg(0, 'vec')
-        v = npy(vec)
+        v = at_call(c, 0, vec)
         if v.ndim < 1:
             return
         d = int(round(np.sqrt(v.shape[-1])))
@@ -304,13 +367,14 @@ def install(ctx, numqi):
         wit = lambda: {'d': d, 'backend': be, 'dtype': str(vec.dtype), 'batch': list(v.shape[:-1]), 'vec': v}
         ok = M.compare(c.result, ref, sc, eps, d, f'gellmann_basis_to_matrix/{be}', 'matrix differs from sum_i v_i G_i',
                        lambda idx: mat_block(idx[-2], idx[-1]), wit)
+        arg_relations(c, 'gellmann_basis_to_matrix', be, [vec], G.gellmann_basis_to_matrix, C_TOL * eps * d * float(np.max(sc, initial=0.0)), wit)
         if ok:
             good, back = M.invoke(f'roundtrip/vector-matrix-vector/{be}', G.matrix_to_gellmann_basis, c.result)
             if good:
                 M.compare(back, v.astype(np.complex128), sc, eps, 2 * d, f'roundtrip/vector-matrix-vector/{be}',
                           'matrix_to_gellmann_basis(gellmann_basis_to_matrix(v)) != v', lambda idx: vec_block(idx[-1], d), wit)
 
-    ctx.attach(G, 'gellmann_basis_to_matrix', post=post_v2m, point='numqi.gellmann.gellmann_basis_to_matrix')
+    ctx.attach(G, 'gellmann_basis_to_matrix', post=post_v2m, pre=pre_snap('vec'), point='numqi.gellmann.gellmann_basis_to_matrix')
 
     # ------------------------------------------------------------------ density matrices
     def looks_like_dm(a, eps):
@@ -325,7 +389,7 @@ def install(ctx, numqi):
             return
         dm = c.arg(0, 'dm')
         with_rho0 = bool(c.arg(1, 'with_rho0', False))
-        a = npy(dm)
+        a = at_call(c, 0, dm)
         if a.ndim < 2 or a.shape[-1] != a.shape[-2]:
             return
         d = a.shape[-1]
@@ -342,19 +406,20 @@ def install(ctx, numqi):
         wit = lambda: {'d': d, 'backend': be, 'dtype': str(dm.dtype), 'batch': list(a.shape[:-2]), 'with_rho0': with_rho0, 'dm': a}
         ok = M.compare(got, ref.astype(np.complex128), sc, eps, d, f'dm_to_gellmann_basis/{be}/with_rho0={with_rho0}',
                        'Bloch vector differs from Re Tr(G_i rho)/2', lambda idx: vec_block(idx[-1], d), wit)
+        arg_relations(c, 'dm_to_gellmann_basis', be, [dm], lambda x: G.dm_to_gellmann_basis(x, with_rho0=with_rho0), C_TOL * eps * d * float(np.max(sc, initial=0.0)), wit)
         if ok and not with_rho0 and a.size and looks_like_dm(a, eps):
             good, back = M.invoke(f'roundtrip/dm-bloch-dm/{be}', G.gellmann_basis_to_dm, c.result)
             if good:
                 M.compare(back, a.astype(np.complex128), np.maximum(sc, 1.0 / d), eps, 2 * d, f'roundtrip/dm-bloch-dm/{be}',
                           'gellmann_basis_to_dm(dm_to_gellmann_basis(rho)) != rho', lambda idx: mat_block(idx[-2], idx[-1]), wit)
 
-    ctx.attach(G, 'dm_to_gellmann_basis', post=post_dm2v, point='numqi.gellmann.dm_to_gellmann_basis')
+    ctx.attach(G, 'dm_to_gellmann_basis', post=post_dm2v, pre=pre_snap('dm'), point='numqi.gellmann.dm_to_gellmann_basis')
 
     def post_v2dm(c):
         if c.exc is not None:
             return
         vec = c.arg(0, 'vec')
-        v = npy(vec)
+        v = at_call(c, 0, vec)
         if v.ndim < 1:
             return
         d = int(round(np.sqrt(v.shape[-1] + 1)))
@@ -370,6 +435,7 @@ def install(ctx, numqi):
         wit = lambda: {'d': d, 'backend': be, 'dtype': str(vec.dtype), 'batch': list(v.shape[:-1]), 'vec': v}
         ok = M.compare(c.result, ref, sc, eps, d, f'gellmann_basis_to_dm/{be}', 'matrix differs from 1/d + sum_i v_i G_i',
                        lambda idx: mat_block(idx[-2], idx[-1]), wit)
+        arg_relations(c, 'gellmann_basis_to_dm', be, [vec], G.gellmann_basis_to_dm, C_TOL * eps * d * float(np.max(sc, initial=0.0)), wit)
         if ok and not np.iscomplexobj(v):
             got = npy(c.result)
             tr = np.trace(got, axis1=-2, axis2=-1)
@@ -379,13 +445,13 @@ def install(ctx, numqi):
                 M.compare(back, v.astype(np.complex128), sc, eps, 2 * d, f'roundtrip/bloch-dm-bloch/{be}',
                           'dm_to_gellmann_basis(gellmann_basis_to_dm(v)) != v', lambda idx: vec_block(idx[-1], d), wit)
 
-    ctx.attach(G, 'gellmann_basis_to_dm', post=post_v2dm, point='numqi.gellmann.gellmann_basis_to_dm')
+    ctx.attach(G, 'gellmann_basis_to_dm', post=post_v2dm, pre=pre_snap('vec'), point='numqi.gellmann.gellmann_basis_to_dm')
 
     def post_norm(c):
         if c.exc is not None:
             return
         dm = c.arg(0, 'dm')
-        a = npy(dm)
+        a = at_call(c, 0, dm)
         if a.ndim < 2 or a.shape[-1] != a.shape[-2]:
             return
         d = a.shape[-1]
@@ -398,14 +464,15 @@ def install(ctx, numqi):
         wit = lambda: {'d': d, 'backend': be, 'dtype': str(dm.dtype), 'batch': list(a.shape[:-2]), 'dm': a}
         M.compare(c.result, ref, sc, eps, d, f'dm_to_gellmann_norm/{be}', 'reported norm differs from the Euclidean norm of the Bloch vector',
                   lambda idx: 'value', wit)
+        arg_relations(c, 'dm_to_gellmann_norm', be, [dm], G.dm_to_gellmann_norm, C_TOL * eps * d * float(np.max(sc, initial=0.0)), wit)
 
-    ctx.attach(G, 'dm_to_gellmann_norm', post=post_norm, point='numqi.gellmann.dm_to_gellmann_norm')
+    ctx.attach(G, 'dm_to_gellmann_norm', post=post_norm, pre=pre_snap('dm'), point='numqi.gellmann.dm_to_gellmann_norm')
 
     def post_dist2(c):
         if c.exc is not None:
             return
         rho, sigma = c.arg(0, 'rho'), c.arg(1, 'sigma')
-        a, b = npy(rho), npy(sigma)
+        a, b = at_call(c, 0, rho), at_call(c, 1, sigma)
         if a.ndim != 2 or a.shape != b.shape or a.shape[0] != a.shape[1]:
             return
         d = a.shape[-1]
@@ -424,8 +491,9 @@ def install(ctx, numqi):
         ctx.check(not np.iscomplexobj(got), f'get_density_matrix_distance2/{be}/real', 'distance is not of a real dtype', {'dtype': str(got.dtype)})
         M.compare(got.reshape(()), ref, sc * sc, eps, d * d, f'get_density_matrix_distance2/{be}',
                   'reported squared distance differs from |v-w|^2 of the Bloch vectors', lambda idx: 'value', wit)
+        arg_relations(c, 'get_density_matrix_distance2', be, [rho, sigma], G.get_density_matrix_distance2, C_TOL * eps * d * d * sc * sc, wit)
 
-    ctx.attach(G, 'get_density_matrix_distance2', post=post_dist2, point='numqi.gellmann.get_density_matrix_distance2')
+    ctx.attach(G, 'get_density_matrix_distance2', post=post_dist2, pre=pre_snap('rho', 'sigma'), point='numqi.gellmann.get_density_matrix_distance2')
     return M
 
 
@@ -535,7 +603,7 @@ def drive_matrix(ctx, numqi, torch, x, desc, do_relations=True):
                 ni = G.dm_to_gellmann_norm(x[idx])
                 rel_close(ctx, np.asarray(nb)[idx], ni, sc, 10 * eps * d, 'relation/batched!=per-item/dm_to_gellmann_norm/numpy', 'batched norm differs from the per-item call',
                           {'d': d, 'batch': list(xn.shape[:-2]), 'item': list(idx)}, 'relation/batched==per-item')
-        if do_relations:
+        if do_relations and xn.dtype.kind in 'fc':  # (integer tensors are outside the stated domain: torch promotes int*float to float32)
             # torch == numpy on the same numbers
             other = torch.from_numpy(np.ascontiguousarray(xn).copy()) if be == 'numpy' else xn
             vo = G.matrix_to_gellmann_basis(other)
@@ -670,6 +738,16 @@ def run_corner(ctx, numqi, torch):
                     views['requires-grad'] = g
                 for name, x in views.items():
                     drive_matrix(ctx, numqi, torch, x, {'op': 'view', 'name': name, 'd': d, 'backend': backend, 'prec': prec}, do_relations=(name != 'requires-grad'))
+                if backend == 'numpy' and prec == 'f64':
+                    # integer-dtype matrices and coefficient vectors (accepted by the numpy path), sliced views
+                    drive_matrix(ctx, numqi, torch, rng.integers(-5, 6, size=(d, d)), {'op': 'int64-matrix', 'd': d})
+                    drive_matrix(ctx, numqi, torch, rng.integers(-5, 6, size=(2, d, d)).astype(np.int32), {'op': 'int32-matrix-batch', 'd': d})
+                    drive_vector(ctx, numqi, torch, rng.integers(-5, 6, size=(d * d,)), {'op': 'int64-vector', 'd': d})
+                    wide = np.zeros((d + 2, d + 3), dtype=np.complex128)
+                    wide[1:-1, 2:-1] = rand_matrix(rng, 'complex', d, ())
+                    drive_matrix(ctx, numqi, torch, wide[1:-1, 2:-1], {'op': 'view', 'name': 'sliced-out-of-a-larger-array', 'd': d})
+                    drive_matrix(ctx, numqi, torch, np.asfortranarray(rand_matrix(rng, 'complex', d, (3,))), {'op': 'view', 'name': 'fortran-order-batch', 'd': d})
+                    drive_matrix(ctx, numqi, torch, np.ascontiguousarray(rand_matrix(rng, 'real', d, ()).T).T, {'op': 'view', 'name': 'real-transposed-view', 'd': d})
                 vv = cast(rng.normal(size=(3, 2, d * d)), backend, prec, torch)
                 vt = vv.swapaxes(0, 1) if backend == 'numpy' else vv.transpose(0, 1)
                 drive_vector(ctx, numqi, torch, vt, {'op': 'vector-view', 'd': d, 'backend': backend, 'prec': prec})
@@ -795,6 +873,222 @@ def run_realistic(ctx, numqi, torch):
                     numqi.maximum_entropy.get_ABk_gellmann_preimage_op(dimA, dimB, k, kind=kind)
 
 
+# ----------------------------------------------------------------------------------------------- histories
+def result_arrays(obj):
+    """numpy views sharing memory with every array inside a (nested) result"""
+    out = []
+
+    def walk(o):
+        if isinstance(o, np.ndarray):
+            out.append(o)
+        elif is_torch(o):
+            try:
+                out.append(o.detach().numpy())
+            except Exception:
+                pass
+        elif isinstance(o, (list, tuple)):
+            for x in o:
+                walk(x)
+    walk(obj)
+    return out
+
+
+def freeze(obj):
+    """deep value snapshot of a (nested) result"""
+    if isinstance(obj, np.ndarray) or is_torch(obj):
+        return ('arr', np.array(npy(obj), copy=True))
+    if isinstance(obj, (list, tuple)):
+        return (type(obj).__name__, [freeze(x) for x in obj])
+    return ('val', obj)
+
+
+def frozen_close(a, b, path='result'):
+    """(ok, where) : same structure and values (1e-12 relative)"""
+    if a[0] != b[0]:
+        return False, f'{path}: {a[0]} vs {b[0]}'
+    if a[0] == 'arr':
+        x, y = a[1], b[1]
+        if x.shape != y.shape:
+            return False, f'{path}: shape {x.shape} vs {y.shape}'
+        if x.size == 0:
+            return True, ''
+        with np.errstate(all='ignore'):
+            err = float(np.abs(x.astype(np.complex128) - y.astype(np.complex128)).max())
+        sc = float(np.abs(y.astype(np.complex128)).max())
+        return (bool(err <= 1e-12 * (1 + sc)), f'{path}: max abs difference {err:.3e}')
+    if a[0] == 'val':
+        return (a[1] == b[1], f'{path}: {a[1]!r} vs {b[1]!r}')
+    if len(a[1]) != len(b[1]):
+        return False, f'{path}: length {len(a[1])} vs {len(b[1])}'
+    for i, (x, y) in enumerate(zip(a[1], b[1])):
+        ok, where = frozen_close(x, y, f'{path}[{i}]')
+        if not ok:
+            return False, where
+    return True, ''
+
+
+def edit_in_place(arrs):
+    n = 0
+    for a in arrs:
+        if a.flags.writeable and a.size:
+            if a.dtype.kind in 'fc':
+                np.multiply(a, 3, out=a)
+                a += 1
+            elif a.dtype.kind in 'iu':
+                a += 1
+            elif a.dtype.kind == 'b':
+                np.logical_not(a, out=a)
+            else:
+                continue
+            n += 1
+    return n
+
+
+def edit_result_then_call_again(ctx, name, call, between=None):
+    """history: r1 = f(x); the caller edits r1 in place (its own result); f(equal x) must still be right.
+    `call` builds fresh, equal arguments every time. The first and the last call are monitored by the contracts."""
+    ctx.set_case({'op': 'history/edit-result-then-call-again', 'fn': name})
+    with ctx.guard(f'history/{name}'):
+        r1 = call()
+        before = freeze(r1)
+        arrs = result_arrays(r1)
+        backups = [a.copy() for a in arrs]
+        n = edit_in_place(arrs)
+        rev = isinstance(r1, list) and len(r1) > 1
+        if rev:
+            r1.reverse()
+        st = ctx.extra.setdefault('edit_result_histories', {})
+        st[name] = st.get(name, 0) + 1
+        if n == 0 and not rev:
+            ro = ctx.extra.setdefault('results_not_editable (read-only or scalar)', {})
+            ro[name] = ro.get(name, 0) + 1
+        try:
+            with ctx.quiet():
+                r2 = call()
+            ok, where = frozen_close(freeze(r2), before)
+            aliased = any(np.shares_memory(x, y) for x in result_arrays(r2) for y in arrs)
+            ctx.check(ok, f'{name}/stale-after-inplace-update',
+                      f'{name}: after the caller edited, in place, the arrays an earlier call returned, a new call with equal arguments no longer returns the same (correct) values: results are shared mutable state',
+                      {'where': where, 'result_aliases_earlier_call': aliased}, point='history/edit-result-then-call-again')
+            if ok and between is not None:
+                between()  # numqi's own callers of f, monitored, while the earlier result is still edited
+        finally:
+            if rev:
+                r1.reverse()
+            for a, b in zip(arrs, backups):
+                if a.flags.writeable:
+                    a[...] = b
+        call()
+
+
+def work_buffer(ctx, name, call, buf, fills, clone):
+    """history: one argument object reused as a work buffer: fill, call, refill in place, call again ... every call must be
+    right for the CURRENT contents (contracts judge it; the relational check names the mechanism)."""
+    ctx.set_case({'op': 'history/work-buffer', 'fn': name})
+    with ctx.guard(f'history/{name}'):
+        for fill in fills:
+            fill(buf)
+            r = call(buf)
+            with ctx.quiet():
+                rf = call(clone(buf))
+            ok, where = frozen_close(freeze(r), freeze(rf))
+            ctx.check(ok, f'{name}/stale-after-argument-update', f'{name}: called again with the same argument object after its contents were updated in place, '
+                      'the result differs from the result for a fresh copy of the current contents', {'where': where}, point='history/work-buffer')
+        st = ctx.extra.setdefault('work_buffer_histories', {})
+        st[name] = st.get(name, 0) + len(fills)
+
+
+
+def run_history(ctx, numqi, torch):
+    G = numqi.gellmann
+    rng = ctx.rng
+    ctx.workload('history')
+    big = ctx.tier == 'thorough'
+    randc = lambda *sh: rng.normal(size=sh) + 1j * rng.normal(size=sh)
+
+    def users_of_the_basis():
+        # numqi's own users of all_gellmann_matrix, monitored
+        with driver(ctx, 'history/get_ABk_gellmann_preimage_op'):
+            numqi.maximum_entropy.get_ABk_gellmann_preimage_op(2, 2, 2, kind='boson')
+            numqi.maximum_entropy.get_ABk_gellmann_preimage_op(2, 2, 2, kind='symmetric')
+
+    # ---------------- (1a) edit the result in place, call again with equal arguments
+    for d in range(2, 6 if not big else 9):
+        for with_I in (True, False):
+            edit_result_then_call_again(ctx, 'all_gellmann_matrix', lambda: G.all_gellmann_matrix(d, with_I=with_I), between=users_of_the_basis if d == 4 else None)
+        if d <= 3:
+            edit_result_then_call_again(ctx, 'all_gellmann_matrix', lambda: G.all_gellmann_matrix(d, tensor_n=2))
+        i, j = int(rng.integers(d)), int(rng.integers(d))
+        edit_result_then_call_again(ctx, 'gellmann_matrix', lambda: G.gellmann_matrix(i, j, d))
+        A, Ab, v, vb = randc(d, d), randc(3, d, d), randc(d * d), rng.normal(size=(2, d * d - 1))
+        dm = rand_matrix(rng, 'dm', d, ())
+        dmb = rand_matrix(rng, 'dm', d, (3,))
+        for be in ('numpy', 'torch'):
+            cv = (lambda x: torch.from_numpy(np.array(x))) if be == 'torch' else (lambda x: np.array(x))
+            edit_result_then_call_again(ctx, 'matrix_to_gellmann_basis', lambda: G.matrix_to_gellmann_basis(cv(A)))
+            edit_result_then_call_again(ctx, 'matrix_to_gellmann_basis', lambda: G.matrix_to_gellmann_basis(cv(Ab)))
+            edit_result_then_call_again(ctx, 'gellmann_basis_to_matrix', lambda: G.gellmann_basis_to_matrix(cv(v)))
+            edit_result_then_call_again(ctx, 'dm_to_gellmann_basis', lambda: G.dm_to_gellmann_basis(cv(dm)))
+            edit_result_then_call_again(ctx, 'dm_to_gellmann_basis', lambda: G.dm_to_gellmann_basis(cv(dmb), with_rho0=True))
+            edit_result_then_call_again(ctx, 'gellmann_basis_to_dm', lambda: G.gellmann_basis_to_dm(cv(vb)))
+            edit_result_then_call_again(ctx, 'get_density_matrix_distance2', lambda: G.get_density_matrix_distance2(cv(dm), cv(dmb[0])))
+        edit_result_then_call_again(ctx, 'dm_to_gellmann_norm', lambda: G.dm_to_gellmann_norm(np.array(dmb)))
+
+    # ---------------- (1b) work buffers: one argument object refilled in place between calls
+    for d in (2, 3, 5):
+        mfill = [lambda b: b.__setitem__(Ellipsis, randc(*b.shape)) for _ in range(3)] + [lambda b: b.__imul__(2)]
+        tfill = [lambda b: b.copy_(torch.from_numpy(randc(*b.shape))) for _ in range(3)] + [lambda b: b.mul_(2)]
+        rfill = [lambda b: b.__setitem__(Ellipsis, rng.normal(size=b.shape)) for _ in range(3)] + [lambda b: b.__imul__(0.5)]
+        for order in ('C', 'F'):
+            work_buffer(ctx, 'matrix_to_gellmann_basis', G.matrix_to_gellmann_basis, np.zeros((d, d), dtype=np.complex128, order=order), mfill, lambda b: np.array(b, order='K'))
+            work_buffer(ctx, 'dm_to_gellmann_basis', G.dm_to_gellmann_basis, np.zeros((2, d, d), dtype=np.complex128, order=order), mfill, lambda b: np.array(b, order='K'))
+            work_buffer(ctx, 'dm_to_gellmann_norm', G.dm_to_gellmann_norm, np.zeros((2, d, d), dtype=np.complex128, order=order), mfill, lambda b: np.array(b, order='K'))
+        work_buffer(ctx, 'matrix_to_gellmann_basis', G.matrix_to_gellmann_basis, torch.zeros(2, d, d, dtype=torch.complex128), tfill, lambda b: b.clone())
+        work_buffer(ctx, 'gellmann_basis_to_matrix', G.gellmann_basis_to_matrix, np.zeros((2, d * d), dtype=np.complex128), mfill, lambda b: b.copy())
+        work_buffer(ctx, 'gellmann_basis_to_matrix', G.gellmann_basis_to_matrix, torch.zeros(d * d, dtype=torch.complex128), tfill, lambda b: b.clone())
+        work_buffer(ctx, 'gellmann_basis_to_dm', G.gellmann_basis_to_dm, np.zeros(d * d - 1), rfill, lambda b: b.copy())
+        work_buffer(ctx, 'gellmann_basis_to_dm', G.gellmann_basis_to_dm, torch.zeros(2, d * d - 1, dtype=torch.float64),
+                    [lambda b: b.copy_(torch.from_numpy(rng.normal(size=tuple(b.shape)))) for _ in range(3)], lambda b: b.clone())
+        sigma = rand_matrix(rng, 'dm', d, ())
+        dfill = [lambda b: b.__setitem__(Ellipsis, rand_matrix(rng, 'dm', d, ())) for _ in range(3)]
+        work_buffer(ctx, 'get_density_matrix_distance2', lambda b: G.get_density_matrix_distance2(b, sigma), np.zeros((d, d), dtype=np.complex128), dfill, lambda b: b.copy())
+
+    # ---------------- (2) call order: the same configurations in different orders inside this process, first one repeated at the end
+    confs = []
+    for d in range(2, 7):
+        A, v, dm, bl = randc(2, d, d), randc(d * d), rand_matrix(rng, 'dm', d, ()), rng.normal(size=d * d - 1)
+        for with_I in (False, True):
+            confs.append(lambda d=d, with_I=with_I: G.all_gellmann_matrix(d, with_I=with_I))
+        if d <= 3:
+            confs.append(lambda d=d: G.all_gellmann_matrix(d, tensor_n=2, with_I=False))
+            confs.append(lambda d=d: G.all_gellmann_matrix(d, tensor_n=2))
+        confs.append(lambda d=d: [G.gellmann_matrix(d - 1, 0, d), G.gellmann_matrix(0, 0, d), G.gellmann_matrix(d - 1, d - 1, d)])
+        for be in ('numpy', 'torch'):
+            cv = (lambda x: torch.from_numpy(np.array(x))) if be == 'torch' else (lambda x: np.array(x))
+            confs.append(lambda A=A, cv=cv: G.gellmann_basis_to_matrix(G.matrix_to_gellmann_basis(cv(A))))
+            confs.append(lambda v=v, cv=cv: G.gellmann_basis_to_matrix(cv(v)))
+            confs.append(lambda dm=dm, cv=cv: G.gellmann_basis_to_dm(G.dm_to_gellmann_basis(cv(dm))))
+            confs.append(lambda bl=bl, dm=dm, cv=cv: G.get_density_matrix_distance2(G.gellmann_basis_to_dm(cv(bl)), cv(dm)))
+        confs.append(lambda dm=dm: G.dm_to_gellmann_norm(dm.copy()))
+
+        def manifold_conf(d=d):
+            with driver(ctx, 'history/manifold'):
+                numqi.manifold.to_special_orthogonal_exp(rng.normal(size=(2, d * d - 1)), d)
+                numqi.manifold.to_symmetric_matrix(torch.from_numpy(rng.normal(size=d * d - 1)), d, is_trace0=True)
+        confs.append(manifold_conf)
+    confs.append(users_of_the_basis)
+    orders = [list(range(len(confs))), list(range(len(confs)))[::-1], [int(t) for t in rng.permutation(len(confs))]]
+    if big:
+        orders += [[int(t) for t in rng.permutation(len(confs))] for _ in range(3)]
+    for oi, order in enumerate(orders):
+        for ci in order + [order[0]]:
+            ctx.set_case({'op': 'history/call-order', 'order': oi, 'configuration': ci})
+            with ctx.guard('history/call-order'):
+                confs[ci]()
+                ctx.hit('history/call-order')
+    ctx.extra['call_order'] = {'configurations': len(confs), 'orders': len(orders)}
+
+
 def run_repo_tests(ctx, numqi, torch):
     """the repository's own tests/test_gellmann.py executed with the contracts attached"""
     ctx.workload('repo-tests')
@@ -831,6 +1125,8 @@ def run(ctx, shard):
         run_realistic(ctx, numqi, torch)
     elif name == 'repo-tests':
         run_repo_tests(ctx, numqi, torch)
+    elif name == 'history':
+        run_history(ctx, numqi, torch)
     elif name.startswith('random-'):
         run_random(ctx, numqi, torch, shard['backend'], shard['prec'])
     # cache integrity: touch the bases the callers of this shard used (plus d=2..8) and compare at the end of the run
